@@ -32,6 +32,12 @@ def main():
         checks = props if allchecks else meta.get('detected_by_expected', meta.get('breaks', []))
         r = sh('git -C %s apply %s' % (REPO, os.path.join(d, 'patch.diff')))
         if r.returncode:
+            # hook lines near the change moved since the patch was recorded: let git merge it
+            r = sh('git -C %s apply --3way %s && git -C %s reset -q' % (REPO, os.path.join(d, 'patch.diff'), REPO))
+            if r.returncode or '<<<<<<<' in sh('git -C %s diff' % REPO).stdout:
+                sh('git -C %s reset -q; git -C %s checkout -- .' % (REPO, REPO))
+                r.returncode = 1
+        if r.returncode:
             rows.append((i, 'PATCH DOES NOT APPLY', r.stdout.strip()[:100]))
             continue
         try:
